@@ -2,7 +2,7 @@
 from common import *
 import itertools
 
-THEOREMS = []
+THEOREMS = ['sliceToSigned_eq', 'sliceToUnsigned_eq', 'decode_eq_spec', 'decode_ok_iff', 'decode_err', 'bool_eq_spec', 'null_eq_spec', 'skipU8If_eq_spec', 'encInt_spec', 'minimalTC_unique', 'minimalTC_spec', 'encInt_eq_minimalTC', 'encIntLen_eq', 'roundtrip', 'decode_ok_enc', 'encBool_spec', 'bool_roundtrip', 'null_roundtrip', 'decodeSlice_int']
 RULE = ("prim <mode> <content> int <ty>: all contents of length 0-2 x 10 accessors x 3 modes, structured contents of length 3-17 "
         "(head octets from {00,01,7f,80,81,fe,ff}^2, extreme and random tails); int.enc: all i8/u8/i16/u16 values, every bit-length "
         "class +-2 of the wider types, random; bool/null contents; skip_u8_if / Content::skip_u8_if on (expected, content) pairs. "
@@ -115,5 +115,5 @@ def nontrivial(req, ans):
     return ans.startswith("ok")
 
 LEVEL = "proof"
-LEVEL_TEXT = "see THEOREMS"
-LEVEL_NOTE = ""
+LEVEL_TEXT = ("Lean 4 theorems for ALL contents, all ten builtin integer types (i8..i128, u8..u128), all modes, any trailing octets: every accessor Primitive::to_* followed by the exhaustion check returns the value exactly when the content is the minimal two's complement form of a number in the type's range and fails with a content error otherwise - never a wrapped or truncated value, never a panic, hand-written i8/u8/u16 paths included (decode_eq_spec, decode_ok_iff, decode_err; pure core sliceToSigned_eq / sliceToUnsigned_eq for every width); BOOLEAN reads exactly one octet with the per-mode rule, NULL has empty content, skip_u8_if succeeds exactly when the decoded value equals the expected one (bool_eq_spec, null_eq_spec, skipU8If_eq_spec); every integer type encodes to exactly the minimal two's complement octets of its value with the announced length, and encode-then-decode returns the value (encInt_spec, minimalTC_unique, encInt_eq_minimalTC, encIntLen_eq, roundtrip, decode_ok_enc, bool/null round trips). Correspondence: every width x values at each range edge +-1, non-minimal / empty / over-long contents, all 256 BOOLEAN octets per mode.")
+LEVEL_NOTE = ("Trusted: Lean 4.33 kernel; axioms propext, Classical.choice, Quot.sound only; the hand-written model (lean/Bcder/Model/Int.lean) tied to /repo on every run by differential correspondence; reference tcValue / isMinimalTC / minimalTC / inRange / decodeInt / decodeBool in lean/Bcder/Spec. skip_u8_if is inlined by the script interpreter; the theorem is about that inlined program. Stated on runG0 (SliceSource semantics); decodeSlice_* give the contract-checking layer up to its contract panic, which C07/C08 and the streaming correspondence runs rule out.")
